@@ -362,6 +362,7 @@ func c20(p *model.Prog, r *report.Result) {
 	w6StatFresh(p, r, "C20.R8")
 	w6LockPairing(p, r, "C20.R7")
 	w7WaitChanBuffered(p, r, "C20.R9")
+	w8RtspSubStageGate(p, r, "C20.R10")
 }
 
 // blockingUnderLock reports every blocking primitive executed while Group.mutex or
